@@ -388,6 +388,21 @@ func monitor(types string, ops []Op) (kind, what string, params map[string]inter
 		map[string]interface{}{"k": kv[0], "v": kv[1], "key": keyState(types, ops, i)}
 }
 
+// modelDiff: first op on which implementation and model disagree. With a PANICKING assertion form
+// (pre-fix trees, mutants) whether a Range that stops early reaches the entry that panics depends on
+// sync.Map's unspecified iteration order, so a `rangestop` line on which either side panics is not
+// compared (the full `range` and the monitors cover the panic itself).
+func modelDiff(ops []Op, typed, model []string) int {
+	t := append([]string(nil), typed...)
+	mo := append([]string(nil), model...)
+	for i := range ops {
+		if ops[i].Name == "rangestop" && i < len(t) && i < len(mo) && (t[i] == "panic" || mo[i] == "panic") {
+			t[i], mo[i] = "-", "-"
+		}
+	}
+	return vlib.FirstDiff(t, mo)
+}
+
 func opLines(ops []Op) []string {
 	out := make([]string, len(ops))
 	for i, o := range ops {
@@ -417,16 +432,16 @@ func check(types string, ops []Op, m *vlib.Model, res *vlib.Result) {
 		return
 	}
 	res.Traces++
-	if i := vlib.FirstDiff(typed, mo[1:]); i >= 0 {
+	if i := modelDiff(ops, typed, mo[1:]); i >= 0 {
 		differs := func(c []Op) bool {
 			t, _ := run(types, c)
 			o, err := m.Run(modelLines(types, c))
-			return err == nil && vlib.FirstDiff(t, o[1:]) >= 0
+			return err == nil && modelDiff(c, t, o[1:]) >= 0
 		}
 		small := vlib.Shrink(ops, differs)
 		t, _ := run(types, small)
 		o, _ := m.Run(modelLines(types, small))
-		j := vlib.FirstDiff(t, o[1:])
+		j := modelDiff(small, t, o[1:])
 		what := fmt.Sprintf("%s op %d %q: impl %q, model %q", types, j, at(opLines(small), j), at(t, j), at(o[1:], j))
 		res.Fail(vlib.Failure{Source: "correspondence", Kind: "tmap-model-differs", What: what, Case: Case{Types: types, Ops: opLines(small)}})
 	}
@@ -634,7 +649,7 @@ func main() {
 		fmt.Printf("monitor: %s %s\n", k, what)
 		if m != nil {
 			if mo, err := m.Run(modelLines(c.Types, ops)); err == nil {
-				if i := vlib.FirstDiff(typed, mo[1:]); i >= 0 {
+				if i := modelDiff(ops, typed, mo[1:]); i >= 0 {
 					fmt.Printf("correspondence: op %d impl %q model %q\n", i, at(typed, i), at(mo[1:], i))
 				} else {
 					fmt.Println("correspondence: model and implementation agree")
